@@ -102,8 +102,8 @@ PROPS = {
     },
     "C04": {
         "title": "Set algebra (union, intersection, difference, complement, cross) is pointwise",
-        "rules": [rules_ftype.rule_mix_sets, callers_for("C04"), on_program(rules_level.rule_next_level), on_program(rules_level.rule_terminal_type), on_program(rules_level.rule_operand_unpack), on_program(rules_level.rule_chain_args), on_program(rules_level.rule_position_kind), rules_orphan.rule_terminal_operands],
-        "explanation": STRUCTURAL + ". C04: cross-forest clause (every handle in union/intersection/difference/complement/cross/copy is used only with its own forest, for every assignment of operand and result forests; "
+        "rules": [rules_ftype.rule_mix_sets, callers_for("C04"), on_program(rules_level.rule_next_level), on_program(rules_level.rule_terminal_type), on_program(rules_level.rule_operand_unpack), on_program(rules_level.rule_chain_args), on_program(rules_level.rule_position_kind), rules_orphan.rule_terminal_operands, rules_own.rule_own],
+        "explanation": STRUCTURAL + ". C04: ownership clause (round 9: the result of a set operation is a well-formed diagram under every deletion policy only if every handle placed in it is owned when it is placed — the link/unlink typing of C06 over the same code, seed C04d); cross-forest clause (every handle in union/intersection/difference/complement/cross/copy is used only with its own forest, for every assignment of operand and result forests; "
                        "what is returned, stored or chained in the result forest was produced there), immutability clause (operations cannot reach the primitives that rewrite packed nodes), and the level discipline of the level-synchronised recursion "
                        "(a set-style next level k-1 is computed only from a level that is non-negative on every path; relation levels go through MXD_levels::downLevel — the cross-forest copy broke this when entered at a primed level, defect D11).",
         "assumptions": ["that the recursion computes OR/AND/AND-NOT/NOT/cross is not decided", "the sign of level parameters and loop counters is the caller's contract (listed, not decided)", "terminal handles are treated as forest independent (value translation between range types is not checked)",
@@ -248,7 +248,7 @@ PROPS = {
     "C17": {
         "title": "Library, domain and forest lifecycles are safe in any order",
         "rules": [on_program(r) for r in rules_life.RULES] + [callers_for("C17"), on_program(rules_layer.rule_edge_fields),
-                  rules_orphan.rule_orphan, rules_orphan.rule_iterator_init],
+                  rules_orphan.rule_orphan, rules_orphan.rule_iterator_init, rules_ftype.rule_entry],
         "explanation": STRUCTURAL + ". C17: teardown order in ~forest, registry discipline (ids never reused), init/cleanup pairing, "
                        "entry-type destruction pairing, factories forgetting destroyed operations, null-forest guards on detached edges.",
         "assumptions": ["clang 14 CFG is faithful", "virtual calls resolved to all overriders", "interleavings of destroy with populated monolithic tables beyond these ordering facts are not decided"],
